@@ -210,6 +210,31 @@ def _run_pairs(acc, job):
     acc.exhaustive = not job.get("step")
 
 
+def _run_straddle(acc, job):
+    """Every DAG on 3 and 4 nodes relabelled across label 8 (see props/c07.py), every target set on the used labels of size
+    0, 1 and all: imec and dag_to_icpdag against brute force."""
+    from props.c07 import STRADDLE_MAPS, _straddle
+    n = 0
+    for p in (3, 4):
+        for k, D in enumerate(G.all_dags(p)):
+            for mi, (pbig, lab) in enumerate(STRADDLE_MAPS):
+                n += 1
+                if n % job["nshards"] != job["shard"]:
+                    continue
+                B = _straddle(D, pbig, lab)
+                used = lab[:p]
+                for m, I in enumerate([[]] + [[t] for t in used] + [sorted(used)]):
+                    case = {"sub": "pairs_hyp", "A": G.lists_from_rows(B), "I": I, "variants": [["int"], ["weighted"], ["float"]][(k + m) % 3],
+                            "salt": k + m, "mono": False, "icpdag_only": False, "after_failed_call": False}
+                    try:
+                        lab_ = check(case)
+                        acc.record(case, lab_ + ["straddle_8"], True, by_construction=True, sample=(n % 1499 == 3 and m == 1))
+                    except Violation as v:
+                        acc.record(case, [], False)
+                        acc.violation(case, v)
+    acc.exhaustive = True
+
+
 def _run_p2i(acc, job):
     subs = _subsets(job["p"])
     for k, (code, P) in enumerate(pdag_codes(job["p"])):
@@ -274,6 +299,8 @@ def plan(tier, seed):
             for ps in ([1, 2, 3, 4, 5, 6], [7], [8], [9], [10], [11], [12])]
     for p in (1, 2, 3):
         jobs.append({"sub": "pairs_exh", "p": p, "shard": 0, "nshards": 1, "seed": seed, "cost": 1})
+    for k in range(16):
+        jobs.append({"sub": "straddle", "shard": k, "nshards": 16, "seed": seed, "cost": 12})
         jobs.append({"sub": "p2i_exh", "p": p, "shard": 0, "nshards": 1, "seed": seed, "cost": 1})
     for k in range(16):
         jobs.append({"sub": "pairs_exh", "p": 4, "shard": k, "nshards": 16, "seed": seed, "cost": 10})
@@ -294,6 +321,9 @@ def plan(tier, seed):
 
 def run(job):
     acc = Acc(job["sub"])
+    if job["sub"] == "straddle":
+        _run_straddle(acc, job)
+        return acc
     if job["sub"] in ("pairs_exh", "pairs_p5_slice"):
         _run_pairs(acc, job)
     elif job["sub"] == "p2i_exh":
